@@ -34,8 +34,9 @@ KList == CASE kp = "2x1x1" -> << <<0, 0, 0>>, <<12, 0, 0>> >>
            [] kp = "1x2x2w" -> << <<0, 0, 0, 6>>, <<0, 0, 12, 6>>, <<0, 12, 0, 6>>, <<0, 12, 12, 6>> >>
            [] kp = "3x1x2" -> << <<0, 0, 0>>, <<8, 0, 0>>, <<16, 0, 0>>, <<0, 0, 12>>, <<8, 0, 12>>, <<16, 0, 12>> >>
            [] kp = "hole" -> << <<0, 0, 0>>, <<12, 0, 0>>, <<0, 12, 0>> >>                   \* 2x2x1 without one point
+           [] kp = "offgrid" -> << <<0, 0, 0>>, <<12, 0, 0>>, <<5, 0, 0>> >>                 \* not on any Gamma-centred mesh
            [] kp = "gamma" -> << <<0, 0, 0>> >>
-Mesh == CASE kp = "2x1x1" -> <<2, 1, 1>> [] kp = "1x2x2w" -> <<1, 2, 2>> [] kp = "3x1x2" -> <<3, 1, 2>> [] kp = "hole" -> <<2, 2, 1>> [] kp = "gamma" -> <<1, 1, 1>>
+Mesh == CASE kp = "2x1x1" -> <<2, 1, 1>> [] kp = "1x2x2w" -> <<1, 2, 2>> [] kp = "3x1x2" -> <<3, 1, 2>> [] kp = "hole" -> <<2, 2, 1>> [] kp = "offgrid" -> <<2, 1, 1>> [] kp = "gamma" -> <<1, 1, 1>>
 WrongMesh == <<Mesh[1] + 1, Mesh[2], Mesh[3]>>
 ParamList == IF pset = "A"
              THEN << <<"num_wann", VInt(2)>>, <<"num_bands", VInt(4)>>, <<"dis_froz_max", VFlt(12)>>, <<"spinors", VBool(TRUE)>>,
@@ -67,7 +68,7 @@ Seed == "seed"
 
 CU == {"none", "ang", "bohr"}
 AT == {"frac", "cart_none", "cart_ang", "cart_bohr"}
-KP == {"2x1x1", "1x2x2w", "3x1x2", "hole", "gamma"}
+KP == {"2x1x1", "1x2x2w", "3x1x2", "hole", "offgrid", "gamma"}
 MPP == {"absent", "right", "wrong"}
 PJ == {"absent", "two", "units"}
 Init == /\ style \in Styles
@@ -87,8 +88,13 @@ Spec == Init /\ [][Next]_vars
 Done == pc = "done"
 RdOk == Done /\ rd.err = ""
 InModel == Done => WellFormed(file) /\ Complete(file) /\ AtomsDyadic(Significant(file))
-(* a file is read iff its k-points are a Monkhorst-Pack mesh and mp_grid (when given) is that mesh *)
-ReadDefined == Done => ((rd.err = "") = (kp # "hole" /\ mpp # "wrong"))
+(* a file whose k-points are a Monkhorst-Pack mesh is read iff mp_grid (when given) is that mesh; points that lie on no
+   mesh are refused.  A mesh with a point missing ("hole") is outside the statement: get_mp_grid does not count the points
+   (C23 reports that as information), so the file is read when mp_grid is absent or names the mesh *)
+KpointsAreMesh == kp \notin {"hole", "offgrid"}
+ReadDefined == Done => /\ (KpointsAreMesh => ((rd.err = "") = (mpp # "wrong")))
+                       /\ (kp = "offgrid" => rd.err # "")
+                       /\ (mpp = "wrong" => rd.err # "")
 (* the result does not depend on how the file is written: case of the keywords, of begin/end and of the units, the
    separator, comment lines, the order of parameters and blocks *)
 StyleInvariant == Done => rd = FromFile(MkFile(Canon), Seed)
